@@ -34,7 +34,7 @@ var (
 	flagPkgs       = flag.String("pkgs", "", "comma separated package patterns (overrides props.json)")
 	flagTimeout    = flag.Int("timeout", 10, "solver timeout (s)")
 	flagJSON       = flag.String("json", "", "write raw result json here")
-	flagMaxPaths   = flag.Int("maxpaths", 4000, "path cap per unit")
+	flagMaxPaths   = flag.Int("maxpaths", 40000, "path cap per unit")
 	flagVerbose    = flag.Bool("v", false, "verbose")
 	flagOverlay    = flag.String("overlay", "", "extra overlay json (mutants)")
 	flagNoCover    = flag.Bool("nocover", false, "skip vacuity checks")
@@ -406,6 +406,7 @@ func realMain() int {
 		if u.con != nil {
 			x.unit = u.con.Fn.Name()
 			x.kindFilter = u.con.Kinds
+			x.pruneAll = u.con.Prune
 			ur.Name = x.unit
 			ur.Kind = "contract"
 			if u.con.Lemma {
@@ -501,6 +502,11 @@ func realMain() int {
 				g.Solver = "vacuity"
 				g.Note = "vacuous: no satisfiable path reaches this obligation (every path condition under which it was generated is contradictory)"
 			}
+		}
+		if ur.PathsCut {
+			// the path / step budget ran out: the unexplored paths generated no
+			// obligations, so nothing is concluded for this unit
+			ur.Obligations = append(ur.Obligations, &OblResult{Name: "paths." + ur.Name + ".explored", Kind: "paths", Instances: 1, Status: "undischarged", Solver: "budget", Note: fmt.Sprintf("path budget exhausted after %d paths: exploration incomplete", ur.Paths)})
 		}
 		if *flagDump != "" {
 			os.MkdirAll(*flagDump, 0o755)
